@@ -65,9 +65,37 @@ def handle(req):
             if y is not None or exact:
                 ans['redump'] = dump(y, dumper, opts)
                 ans['docorder'] = (dump(y, dumper, dict(opts, sort_keys=False)) == t) if (exact and not _has_set(y, set())) else None
+    if req.get('handdoc'):
+        ans['handdoc'] = _handdoc(req['handdoc'])
     ans['set_order'] = ','.join(first_set[0]) if first_set else ''
     del junk
     return ans
+
+
+def _handdoc(spec):
+    """Document order on load for a mapping written by hand (plain keys the dumpers would quote: '=', 'yes', '~',
+    numbers, dates): the keys of the loaded mapping, in iteration order, against each key scalar loaded alone."""
+    loader = getattr(yaml, spec['loader'])
+    keys = spec['keys']
+    try:
+        alone = [list(yaml.load(k + ': 0\n', Loader=loader))[0] for k in keys]     # each key as the only key of a mapping
+        hash(tuple(map(repr, alone)))
+        if len({observe.jdump(observe.value(k)) for k in alone}) != len(alone) or any(isinstance(k, (list, dict, set)) for k in alone):
+            return None
+        if len(set(alone)) != len(alone):
+            return None
+        if spec['style'] == 'flow':
+            text = '{' + ', '.join('%s: v%d' % (k, i) for i, k in enumerate(keys)) + '}\n'
+        else:
+            text = ''.join('%s: v%d\n' % (k, i) for i, k in enumerate(keys))
+        y = yaml.load(text, Loader=loader)
+    except (yaml.YAMLError, TypeError, ValueError):
+        return None
+    if not isinstance(y, dict) or len(y) != len(alone):
+        return None
+    got = [observe.jdump(observe.value(k)) for k in y]
+    want = [observe.jdump(observe.value(k)) for k in alone]
+    return None if got == want else {'text': text, 'loaded_order': got, 'document_order': want}
 
 
 def _doc_events(text):
